@@ -17,7 +17,7 @@ RULE = ("seeded random continua biased towards nested and long-overlapping units
         "clock; the result is checked to be a partition with a disorder matching its units, >= the exact best "
         "alignment's, and equal to it when window*annotators >= units; plus fast-mode compute_gamma runs on small "
         "(windowing disadvantageous) and larger sparse continua (windowing advantageous) with call counters on "
-        "get_fast_alignment. non-trivial = continuum with >= 3 units; distinct by SHA-1 of (continuum, dissimilarity, window)")
+        "get_fast_alignment, incl. two-step histories on one continuum object (large, then shrunk). non-trivial = continuum with >= 3 units; distinct by SHA-1 of (continuum, dissimilarity, window)")
 ASSUMPTIONS = [
     "the fast loop is a deterministic function of the remaining units, so an iteration that consumes nothing repeats "
     "forever: stagnation is non-termination (no wall-clock involved)",
@@ -105,6 +105,25 @@ def check_gamma_case(ctx, case):
     cspec, dspec = case["continuum"], case["dissim"]
     dissim = pool.get(dspec)
     continuum = cases.build_continuum(cspec)
+    if case.get("shrink_to"):
+        # multi-step history on ONE continuum object: a fast gamma on the large continuum (window recorded), then most
+        # units are removed and the fast gamma below runs on the same object, now too small for windowing to pay off
+        try:
+            np.random.seed(case["np_seed"] ^ 0x5a5a)
+            continuum.compute_gamma(dissim, n_samples=1, fast=True)
+            ctx.observe("history_first_window", "inf" if continuum.best_window_size == np.inf else "finite")
+            for a, u in list(continuum)[case["shrink_to"]:]:
+                continuum.remove(a, u)
+            for a in list(continuum.annotators):
+                if not len(continuum[a]):
+                    from pyannote.core import Segment
+                    continuum.add(a, Segment(0.0, 1.0), cases.LABELS_SMALL[0])
+        except monitors.Stagnation as e:
+            ctx.fail("fast-alignment-does-not-terminate", {"in": "compute_gamma(fast=True)", "message": str(e)}, monitor="M-PROG")
+            return
+        except Exception as e:
+            ctx.fail_exc(f"fast-gamma-raises:{type(e).__name__}", e, monitor="M-GAMMA-MODE")
+            return
     calls = {"fast": [], "best_top": 0}
     depth = {"fast": 0}
     orig_fast, orig_best = pc.Continuum.get_fast_alignment, pc.Continuum.get_best_alignment
@@ -245,5 +264,7 @@ def run(ctx):
                                         labels=cases.LABELS_SMALL, allow_empty=False)
         case = {"type": "gamma", "continuum": cspec, "dissim": gd, "n_samples": rng.randint(1, 3),
                 "np_seed": rng.randrange(2 ** 31), "sampler": rng.choice([None, "shuffle"])}
+        if i % 4 == 0:
+            case["shrink_to"] = rng.randint(4, 9)
         ctx.begin_case(case)
         check_case(ctx, case)
